@@ -207,6 +207,51 @@ static void run_intrusive(const std::vector<long long>& seq, const char* family,
    for (auto p : nodes) delete p;
 }
 
+// Intrusive flavour with duplicate-bearing sequences, over two chains: a node whose key is already present is not linked
+// (size() is not asserted: only the owning flavour promises that an equal key "adds nothing"); such a rejected node is then
+// offered to a second chain, which must take it like any other node.  After every insertion into either chain both chains
+// are validated (a chain must not be disturbed by what happens to another one).
+static void run_intrusive_dups(const std::vector<long long>& seq, const char* family)
+{
+   auto& C = ctx();
+   IChain a, b;
+   std::vector<INode*> nodes, rejected;
+   std::set<long long> in_a, in_b;
+   Validator<INode, SignOf<ICmp>> val;
+   Shape sh;
+   auto J0 = [&] { return J().s("family", family).raw("seq", seq_json(seq)).str(); };
+   auto check = [&](IChain& t, const std::set<long long>& present, const char* which, const char* when) -> bool {
+      std::string e = val.validate(t.get_root(), (long long)present.size(), sh);
+      C.count("validations");
+      if (!e.empty()) { C.viol(std::string("intrusive-dups:shape:") + which + ":" + e.substr(0, 40), e + " in chain " + which + " " + when, J0()); return false; }
+      for (long long k : present) { INode* f = t.find(k, ICmp{}); if (!f || f->key != k) { C.viol(std::string("intrusive-dups:find:") + which, std::string("a key linked into chain ") + which + " is not found " + when, J0()); return false; } }
+      return true;
+   };
+   bool ok = true;
+   for (long long k : seq) {
+      INode* z = new INode(k); nodes.push_back(z);
+      const bool dup = !in_a.insert(k).second;
+      a.insert(z, ICmp{});
+      if (dup) { rejected.push_back(z); C.count("intrusive_duplicates_offered"); }
+      if (!(ok = check(a, in_a, "A", "after an insertion into A"))) break;
+   }
+   if (ok && !rejected.empty()) {
+      val.validate(a.get_root(), (long long)in_a.size(), sh); const std::uint64_t a_shape = sh.fp;
+      std::vector<INode*> for_b(rejected);
+      for (int i = 0; i < 10; ++i) { INode* z = new INode(1000 + (i * 7) % 10); nodes.push_back(z); for_b.push_back(z); }     // enough fresh keys for rotations about the root
+      for (INode* z : for_b) {
+         in_b.insert(z->key);
+         b.insert(z, ICmp{});
+         C.count("rejected_nodes_offered_to_a_second_chain");
+         if (!(ok = check(b, in_b, "B", "after a node rejected by A was inserted into B"))) break;
+         if (!(ok = check(a, in_a, "A", "after an insertion into the other chain B"))) break;
+         if (sh.fp != a_shape) { C.viol("intrusive-dups:other-chain-disturbed", "the shape of chain A changed although only chain B was inserted into", J0()); ok = false; break; }
+      }
+      for (long long k : { 0LL, 999LL, 2000LL }) if (b.find(k, ICmp{}) || a.find(k + 5000, ICmp{})) C.viol("intrusive-dups:find:absent-key-found", "a key never inserted is found", J0());
+   }
+   for (auto p : nodes) delete p;
+}
+
 // Owning flavour over integer keys with duplicates allowed.
 static void run_owning_int(const std::vector<long long>& seq, const char* family, long long every, bool count_case)
 {
@@ -344,7 +389,7 @@ static void body(Ctx& C)
    C.assume("comparators supplied by the harness are total orders");
    C.assume("exhaustive only up to the stated bounds; longer sequences are sampled");
    for (int i = 0; i < 6; ++i) C.need(std::string("fixup_case_") + std::to_string(i));
-   C.need("wide_result_sequences");
+   C.need("wide_result_sequences"); C.need("intrusive_duplicates_offered"); C.need("rejected_nodes_offered_to_a_second_chain");
 
    const int maxn = C.thorough ? 9 : 8;
    // -- all permutations of 1..n ------------------------------------------------------
@@ -370,6 +415,7 @@ static void body(Ctx& C)
          for (;;) {
             if (idx++ % C.workers == C.worker) {
                run_owning_int(s, "dupseq", 1, false);
+               run_intrusive_dups(s, "dupseq");
                C.count("dup_sequences");
                C.eval(hash_bytes(std::string_view(reinterpret_cast<const char*>(s.data()), s.size() * sizeof(long long)), 7));
                if (len == 6 && alphabet == 5) C.sample(J().s("kind", "dup-sequence").raw("seq", seq_json(s)).str(), 3);
